@@ -7,6 +7,7 @@ from hypothesis import strategies as st
 
 from ndn.types import ValidResult
 
+from .. import pkt as P
 from ..core import Result, SubCheck
 from ..refs import tlv as T
 from ..sim import net
@@ -318,6 +319,49 @@ def interest_item(sim, fe, it, r, idx):
     return (fe, 'interest', kind, dg, repr(rv), repr(app_v), sigtype, bool(it.get('sigbad')), bool(it.get('refused_dup')), bool(it.get('appv_late')), bool(it.get('attach_during')), bool(it.get('no_sig_value'))) if nontriv else ()
 
 
+def replay_item(sim, fe, it, r, idx):
+    """Several signed Interests carrying the SAME parameters (hence the same parameters digest) reach one route, whose validator
+    answers per call (the name changed under the old signature; a signature accepted once is not accepted again; the key was
+    revoked meanwhile): each Interest is handed over iff the validator accepted THAT Interest."""
+    prefix = [net.comp('r'), net.comp(str(idx))]
+    log = []
+    vl = sim.vl
+    verdicts = it['verdicts']
+    calls = [0]
+    if fe == 'v2':
+        async def v(nm, sig, ctx):
+            i = calls[0]
+            calls[0] += 1
+            return _verdict_obj(fe, verdicts[min(i, len(verdicts) - 1)])
+        vl.call(sim.app.attach_handler, prefix, lambda nm, ap, reply, ctx: log.append(bytes(nm[-2])), v)
+    else:
+        async def v(nm, sig):
+            i = calls[0]
+            calls[0] += 1
+            return verdicts[min(i, len(verdicts) - 1)]
+        vl.call(sim.app.set_interest_filter, prefix, lambda nm, p, ap: log.append(bytes(nm[-2])), v)
+    first = _build_interest(prefix + [net.comp('x')], {'ikind': 'params+sig', 'digest': 'correct', 'sigtype': it.get('sigtype', 1)})
+    wires = []
+    for i, how in enumerate(['first'] + list(it['then'])):
+        # 'same': the very same packet again; 'renamed': another name under the route with the parameters block left as it is
+        wires.append(first if how in ('first', 'same') else first.replace(net.comp('x'), net.comp('y' if how == 'renamed' else 'z'), 1))
+    want = []
+    for i, w in enumerate(wires):
+        sim.deliver(w, 'task')
+        vl.advance(0.02)
+        if _accepting(fe, verdicts[min(i, len(verdicts) - 1)]):
+            want.append(bytes(P.strict_interest(w)['name'][2]))
+    if calls[0] != len(wires):
+        r.bad(f'C05/{fe}/replay/validator-not-asked-for-every-interest', f'{calls[0]} calls for {len(wires)} signed Interests; verdicts {verdicts} then {it["then"]}')
+    elif log != want:
+        r.bad(f'C05/{fe}/replay/{"delivered-unvalidated" if len(log) > len(want) else "wrongly-dropped"}',
+              f'handler saw {[x.hex() for x in log]} expected {[x.hex() for x in want]}; verdicts {verdicts} then {it["then"]}')
+    if sim.receive_errors:
+        r.bad(f'C05/{fe}/replay/receive-raised/{sim.receive_errors[0].split(":")[0]}', sim.receive_errors[0])
+        sim.receive_errors.clear()
+    return (fe, 'replay', tuple(map(repr, verdicts)), tuple(it['then']))
+
+
 def pair_item(sim, fe, it, r, idx):
     """Two Interests pending on the SAME name with different validators (verdict / latency); one Data answers both."""
     name = [net.comp('p'), net.comp(str(idx))]
@@ -358,7 +402,8 @@ def run_case(case):
     try:
         for idx, it in enumerate(case['items']):
             k = data_item(sim, fe, it, r, idx) if it['side'] == 'data' else \
-                pair_item(sim, fe, it, r, idx) if it['side'] == 'pair' else interest_item(sim, fe, it, r, idx)
+                pair_item(sim, fe, it, r, idx) if it['side'] == 'pair' else \
+                replay_item(sim, fe, it, r, idx) if it['side'] == 'replay' else interest_item(sim, fe, it, r, idx)
             classes.append(it['side'])
             if k:
                 keys.append(k)
@@ -400,6 +445,10 @@ def _grid_items(fe):
         if v1 != v2:
             for l1, l2 in (('0', '0'), ('0', '1ms'), ('1ms', '0'), ('0', 'life+20')):
                 yield {'side': 'pair', 'subs': [{'verdict': v1, 'lat': l1}, {'verdict': v2, 'lat': l2, 'cbp': True}]}
+    acc, rej = ('PASS', 'FAIL') if fe == 'v2' else (True, False)
+    for then in (['same'], ['renamed'], ['renamed', 'same'], ['same', 'other']):
+        for vs in ([acc, rej], [acc, rej, acc], [rej, acc], [acc, acc, rej]):
+            yield {'side': 'replay', 'verdicts': vs, 'then': then}
     rvs = ['absent'] + list(verdicts) + [['slow', verdicts[0]], ['slow', 'PASS' if fe == 'v2' else True]]
     if fe == 'v2':
         rvs += ['RAISE_TIMEOUT', ['slow', 'RAISE_TIMEOUT']]
